@@ -182,6 +182,36 @@ func (c09Engine) Run(sci interface{}, ctx *RunCtx) *Finding {
 			}
 		}
 	}
+	// The same source under different options, in turn: what a compilation yields
+	// must depend on ITS options only, not on the options of an earlier compilation
+	// of the same text.
+	for _, p := range sc.Progs {
+		src := p.Src()
+		variant := func(optimize, overload bool) string {
+			w0 := NewWorld(false, nil, nil)
+			sample := BuildEnv(w0, sc.Envs[0]).AsRep(sc.Rep)
+			opts := []expr.Option{expr.Env(sample)}
+			if !optimize {
+				opts = append(opts, expr.Optimize(false))
+			}
+			if overload {
+				opts = append(opts, expr.Operator("**", "OpA", "OpB"), expr.Operator("+", "OpB"))
+			}
+			pr, co := sutCompile(src, opts...)
+			ctx.Eval()
+			if co.Failed() {
+				return "rejected: " + firstLine(co.ErrText())
+			}
+			return Snapshot(pr)
+		}
+		plainOff := variant(false, false)
+		variant(true, false)
+		variant(true, true)
+		ctx.Count("option_toggle_recompilations", 1)
+		if again := variant(false, false); again != plainOff {
+			return &Finding{Class: "C09/compile-depends-on-earlier-options", Detail: fmt.Sprintf("compiling with Optimize(false) gives a different program after the same source was compiled with other options (optimised, overloaded operators)\nsource: %s\n first: %s\n later: %s", src, plainOff, again)}
+		}
+	}
 	// One Env option VALUE reused: what a strict compilation accepts must not
 	// depend on a lenient compilation (AllowUndefinedVariables) made with the same
 	// option value in between.
